@@ -145,6 +145,27 @@ func encode(proto string, isReq bool, pid int, key int, st *encState) []byte {
 		return append(be32(len(body)), body...)
 	}
 	switch proto {
+	case "redissub":
+		// Redis with publish/subscribe commands: the k-th command of a connection is SUBSCRIBE, GET, PSUBSCRIBE, GET ...
+		// and the k-th reply is the matching acknowledgement array / bulk string
+		st.sent++
+		kind := st.sent % 4
+		if isReq {
+			switch kind {
+			case 1:
+				return []byte(fmt.Sprintf("*2\r\n$9\r\nSUBSCRIBE\r\n$%d\r\n%s\r\n", len(mark), mark))
+			case 3:
+				return []byte(fmt.Sprintf("*2\r\n$10\r\nPSUBSCRIBE\r\n$%d\r\n%s\r\n", len(mark), mark))
+			}
+			return []byte(fmt.Sprintf("*2\r\n$3\r\nGET\r\n$%d\r\n%s\r\n", len(mark), mark))
+		}
+		switch kind {
+		case 1:
+			return []byte(fmt.Sprintf("*3\r\n$9\r\nsubscribe\r\n$%d\r\n%s\r\n:1\r\n", len(mark), mark))
+		case 3:
+			return []byte(fmt.Sprintf("*3\r\n$10\r\npsubscribe\r\n$%d\r\n%s\r\n:2\r\n", len(mark), mark))
+		}
+		return []byte(fmt.Sprintf("$%d\r\n%s\r\n", len(mark), mark))
 	case "httpup":
 		// HTTP/1.1 whose first request of a connection asks for an upgrade to h2c and whose server declines (answers
 		// 200 in HTTP/1.1 and goes on in HTTP/1.1): what the client half does next must not depend on whether the
@@ -221,6 +242,9 @@ func newWorld(proto string, conns []int) *world {
 	extName := proto
 	if proto == "http2" || proto == "httpup" {
 		extName = "http"
+	}
+	if proto == "redissub" {
+		extName = "redis"
 	}
 	ext := extensions.ExtensionsMap[extName]
 	w := &world{proto: proto, ext: ext, matcher: ext.Dissector.NewResponseRequestMatcher(), stats: &api.AppStats{},
